@@ -83,8 +83,9 @@ def file_names(repo, stem="h"):
     """hint strings turned into valid single path components (prefix / infix / suffix of a .py name), for the file-name pools"""
     out = []
     for s in hints(repo)["strings"]:
-        if "/" in s or "\x00" in s or s in (".", ".."):
-            continue
+        if "/" in s or s in (".", "..") or any(ord(ch) < 0x20 or ch == "\x7f" for ch in s):
+            continue                # control characters (a line end above all) are legal in a name but make the line-oriented listings the harness reads back ambiguous:
+                                    # a change that merely contains "\r" or "\n" must not make a check misread its own observations
         for nm in (s + stem + ".py", stem + s + ".py", stem + s + "x.py"):
             if nm not in out and len(nm.encode()) < 200:
                 out.append(nm)
